@@ -9,6 +9,7 @@ Theorems about `FdtdxModel/C39.lean`, over an arbitrary linearly ordered field `
   C39_close_zero_iff, C39_close_iff        `math.isclose` with 0 ≤ rel_tol < 1 is equality against 0 and the relative test otherwise
   C39_isDiag_iff     isDiag p ⇔ p = (x,0,0,0,y,0,0,0,z) for some x y z
   C39_isIso_iff      isIso p ⇔ p diagonal with neighbouring diagonal entries within the relative tolerance
+  C39_isIso_imp_isDiag, C39_isIso_offdiag_zero   isotropic ⇒ diagonal; isotropic ⇒ each of the six off-diagonal entries is 0
   C39_isIso_exact    with rel_tol = 0: isIso p ⇔ p = normalize (scalar v) for some v
   C39_iso_scalar, C39_diag_diag3   scalars are isotropic, 3-tuples diagonal (whatever the tolerance ≥ 0)
   C39_isConductive_iff   conductive ⇔ some entry non-zero
@@ -164,6 +165,29 @@ theorem C39_isIso_iff (rel : K) (hr : 0 ≤ rel) (hr1 : rel < 1) (p : List K) (h
     exact ⟨x, y, z, rfl, by simpa [at9] using h1, by simpa [at9] using h2⟩
   · rintro ⟨x, y, z, rfl, h1, h2⟩
     exact ⟨⟨by simpa [at9] using h1, by simpa [at9] using h2⟩, x, y, z, rfl⟩
+
+/-- C39_isIso_imp_isDiag: whatever is classified isotropic is also classified diagonally anisotropic. -/
+theorem C39_isIso_imp_isDiag (rel : K) (p : List K) (h : isIso rel p = true) : isDiag rel p = true := by
+  unfold isIso at h
+  rw [Bool.and_eq_true] at h
+  exact h.2
+
+/-- C39_isIso_offdiag_zero: an isotropic tensor has EVERY off-diagonal entry equal to zero (each one separately — entries
+that merely cancel, as in a gyrotropic tensor (v, g, 0, -g, v, 0, 0, 0, v), do not count) and diagonal entries within the
+relative tolerance. -/
+theorem C39_isIso_offdiag_zero (rel : K) (hr : 0 ≤ rel) (hr1 : rel < 1) (p : List K) (hp : p.length = 9)
+    (h : isIso rel p = true) :
+    at9 p 1 = 0 ∧ at9 p 2 = 0 ∧ at9 p 3 = 0 ∧ at9 p 5 = 0 ∧ at9 p 6 = 0 ∧ at9 p 7 = 0 ∧
+    close rel (at9 p 0) (at9 p 4) = true ∧ close rel (at9 p 4) (at9 p 8) = true := by
+  have hd := C39_isIso_imp_isDiag rel p h
+  obtain ⟨x, y, z, rfl⟩ := (C39_isDiag_iff rel hr hr1 p hp).mp hd
+  unfold isIso at h
+  simp only [Bool.and_eq_true] at h
+  exact ⟨rfl, rfl, rfl, rfl, rfl, rfl, h.1.1, h.1.2⟩
+
+/-- a gyrotropic tensor (cancelling off-diagonals, equal diagonal) is neither isotropic nor diagonal -/
+example : isIso (1 / 1000000000 : ℚ) [2, 3 / 10, 0, -3 / 10, 2, 0, 0, 0, 2] = false ∧
+    isDiag (1 / 1000000000 : ℚ) [2, 3 / 10, 0, -3 / 10, 2, 0, 0, 0, 2] = false := by decide +kernel
 
 /-- C39_isIso_exact: with zero tolerance, isotropic ⇔ the normal form of a scalar. -/
 theorem C39_isIso_exact (p : List K) (hp : p.length = 9) :
